@@ -950,6 +950,12 @@ class CategoricalROISubsetState2D(SubsetState):
         # Initialize empty mask
         mask = np.zeros(labels1.shape, dtype=bool)
 
+        # The loop below is over individual values, so we use flat views in
+        # case the view resulted in arrays with more than one dimension
+        flat_mask = mask.reshape(-1)
+        labels1 = np.ravel(labels1)
+        labels2 = np.ravel(labels2)
+
         # A loop over all values here is actually reasonably efficient compared
         # to alternatives. Any improved implementation, even vectorized, should
         # ensure that it is more efficient for large numbers of categories and
@@ -957,7 +963,7 @@ class CategoricalROISubsetState2D(SubsetState):
         for i in range(len(labels1)):
             if labels1[i] in self.categories:
                 if labels2[i] in self.categories[labels1[i]]:
-                    mask[i] = True
+                    flat_mask[i] = True
 
         return mask
 
@@ -1053,6 +1059,12 @@ class CategoricalMultiRangeSubsetState(SubsetState):
         # Initialize empty mask
         mask = np.zeros(values.shape, dtype=bool)
 
+        # The loop below is over individual values, so we use flat views in
+        # case the view resulted in arrays with more than one dimension
+        flat_mask = mask.reshape(-1)
+        labels = np.ravel(labels)
+        values = np.ravel(values)
+
         # A loop over all values here is actually reasonably efficient compared
         # to alternatives. Any improved implementation, even vectorized, should
         # ensure that it is more efficient for large numbers of categories and
@@ -1062,7 +1074,7 @@ class CategoricalMultiRangeSubsetState(SubsetState):
             if labels[i] in self.ranges:
                 for lo, hi in self.ranges[labels[i]]:
                     if values[i] >= lo and values[i] <= hi:
-                        mask[i] = True
+                        flat_mask[i] = True
                         break
 
         return mask
